@@ -27,7 +27,7 @@ CLAIMED = {
    note="Assumed: System.handleDuplicate's contract (renames the displaced object and re-registers both), dict views. The registry/containment/parent/fullName/module/URL-uniqueness invariants over a whole built system (all ten clauses of the property, after real ASTBuilder runs including re-exports, duplicates, nested duplicates) are decided by the bounded native harness. Known findings KF-C02-summary-page-clash, KF-C02-nested-duplicate-key.",
    ref='6 C02'),
  'C07': dict(
-   text="Deductive: ModuleVistor._handleReExport moves the object exactly when the documented condition holds (as_name is exported by the current module's __all__, the origin resolves it to an object defined in a module, and the origin's own __all__ does not list it), under the name it is imported as, returns True exactly then, reports and returns False when it cannot be resolved, and changes nothing otherwise; _getCurrentModuleExports yields the module's __all__ (nothing inside classes/functions); the effect of the move itself is Documentable.reparent's contract (C02): one object, registered once under the new qualified name, alias left at the old location.",
+   text="Deductive: ModuleVistor._handleReExport moves the object exactly when the documented condition holds (as_name is exported by the current module's __all__, the origin resolves it to an object defined in a module, and the origin's own __all__ does not list it), under the name it is imported as, returns True exactly then, reports and returns False when it cannot be resolved, and changes nothing otherwise; _getCurrentModuleExports yields the module's __all__ (nothing inside classes/functions); the effect of the move itself is Documentable.reparent's contract (C02): one object, registered once under the new qualified name, alias left at the old location; Documentable.resolveName returns the registered object of the expanded name and otherwise follows the alias of that *expanded* name through System.find_object (None when that fails).",
    note="Assumed: resolveName/expandName (name resolution through alias chains is outside the contracts; after the fix resolveName follows the alias of a moved object), System.msg/report only count. 'Both the new name and an import from the defining module lead to that one object', documented-once on the written pages, processing order independence (consumer first / origin first) are decided by the bounded native harness (plain, renamed, star re-exports x analysis order x origin __all__).",
    ref='6 C07'),
  'C05': dict(
@@ -39,7 +39,7 @@ CLAIMED = {
    note="Assumed: templates attach the renderer results as name= attributes; urllib.parse.quote never produces '#'; the object model is a tree (C02). hrefs built outside taglink (letter links, sidebar templates, search) and the anchor sets of the written files are decided by the bounded native scan of real output only. Known finding KF-C11-displaced-duplicates.",
    ref='6 C11'),
  'C12': dict(
-   text="Deductive: taglink creates a hyperlink only to a visible object (after the fix) - every caller inherits this modularly; the listing functions CommonPage.children/methods, PackagePage.children/methods, ObjContent._children, Module.submodules return only visible objects, all taken from the container's contents (sorted() modelled as a permutation, filtered generators by witness functions); assembleList drops names of hidden objects; _writeDocsFor writes no page for or below a hidden object; css_class carries ' private' exactly for PRIVATE objects and the sidebar item class starts with 'private' exactly for non-public ones.",
+   text="Deductive: taglink creates a hyperlink only to a visible object (after the fix) - every caller inherits this modularly; the listing functions CommonPage.children/methods, PackagePage.children/methods, ObjContent._children, Module.submodules return only visible objects, all taken from the container's contents (sorted() modelled as a permutation, filtered generators by witness functions); assembleList drops names of hidden objects; _writeDocsFor writes no page for or below a hidden object; css_class carries ' private' exactly for PRIVATE objects and the sidebar item class starts with 'private' exactly for non-public ones; IndexPage.roots links only visible roots, from index.html.",
    note="Assumed: isVisible/privacyClass as pure queries (verified against the documented rule under C13); stan constructors opaque; templates (HTML) not covered. Not under contract: table.ChildTable.rows, util.unmasked_attrs (set comprehension with two generators), summary.* index pages, search, TableRow/FunctionChild.class_ - decided by the bounded native scan of real output (8 privacy rule lists + hidden root + themes). Interpretation stated in DESIGN: a hidden base of a visible class shown as a plain name node is source text about the visible class.",
    ref='6 C12'),
  'C13': dict(
